@@ -1006,6 +1006,8 @@ def shift_analysis(rep, inst):
                 op = linear.NEG[c[1]] if neg else c[1]
                 return (op, c[2], c[3])
 
+            loop_dir = {}
+
             def loop_range(fs):
                 """ForStmt / WhileStmt -> (var name, lo Lin, hi Lin) for counting loops: `for (i = A; i < B; ++i)`, `i <= B`, `for (i = A; i > B; --i)`, and
                 `T i = A; while (i > B) { ...; --i; }` (step as the last statement of the body)"""
@@ -1039,6 +1041,7 @@ def shift_analysis(rep, inst):
                     bnd = lin_of(r_)
                     if bnd is None:
                         return None
+                    loop_dir[fs.get("id")] = "up" if stp[1] in ("++", "post++") else "down"
                     if stp[1] in ("++", "post++") and op in ("<", "<="):
                         return (v, a, bnd - Lin({"": 1}) if op == "<" else bnd)
                     if stp[1] in ("--", "post--") and op in (">", ">="):
@@ -1053,11 +1056,15 @@ def shift_analysis(rep, inst):
                 a = lin_of(ir.sx(ir.ekids(vds[0])[-1]))
                 c = ir.sx(cond)
                 it = ir.sx(inc)
-                if a is None or c[0] != "bin" or c[2] != ("ref", v) or it[0] != "un" or it[2] != ("ref", v):
+                if a is None or c[0] != "bin" or c[1] not in ("<", "<=", ">", ">=") or it[0] != "un" or it[2] != ("ref", v):
                     return None
+                # `L(i) op R` with the loop variable occurring once, with coefficient 1, on the left (`i + div <= last` is `i <= last - div`)
+                l_ = lin_of(c[2])
                 b = lin_of(c[3])
-                if b is None:
+                if l_ is None or b is None or l_.get("i:" + v, 0) != 1 or "i:" + v in b:
                     return None
+                b = b - (l_ - Lin({"i:" + v: 1}))
+                loop_dir[fs.get("id")] = "up" if it[1] in ("++", "post++") else "down"
                 if it[1] in ("++", "post++") and c[1] in ("<", "<="):
                     return (v, a, b - Lin({"": 1}) if c[1] == "<" else b)
                 if it[1] in ("--", "post--") and c[1] in (">", ">="):
@@ -1092,6 +1099,44 @@ def shift_analysis(rep, inst):
                 for v, lo, hi in lr:
                     facts.append(Lin({"i:" + v: 1}) - lo)
                     facts.append(hi - Lin({"i:" + v: 1}))
+                # in-place order: the loop moves blocks inside one buffer, so a block must be read as a source before an earlier iteration's
+                # store can have reached it - ascending loops may only store at or below what later iterations read, descending ones at or above
+                la = loops_above(n)
+                if la and la[0].get("id") in loop_dir:
+                    lp = la[0]
+                    up = loop_dir[lp.get("id")] == "up"
+                    hazard = None
+                    for x in ir.walk_expr(lp):
+                        if x.get("kind") not in ("CXXOperatorCallExpr", "ArraySubscriptExpr", "UnaryOperator"):
+                            continue
+                        par = d.parent_of(x)
+                        if par is not None and par.get("kind") == "BinaryOperator" and par.get("opcode") == "=" and ir.ekids(par)[0] is x:
+                            continue          # the store itself
+                        e = elem_target(ir.sx(x), aliases)
+                        if e is None or e[0] != ("this",):
+                            continue
+                        Sx = lin_of(e[1])
+                        if Sx is None:
+                            continue
+                        dlt = T - Sx
+                        if any(k_.startswith("i:") for k_ in dlt):
+                            continue
+                        gap = dlt if up else -dlt               # > 0: a later iteration reads what this one wrote
+                        if linear.entails(facts_global, -gap, nonneg):
+                            continue
+                        if linear.entails(facts_global, gap, nonneg) and (set(gap) - {""}):
+                            hazard = (x, gap)
+                            break
+                        if not (set(gap) - {""}) and gap.const() > 0:
+                            hazard = (x, gap)
+                            break
+                    if hazard:
+                        rep.violates(R, lab, "store `%s`" % txt, where=where, scenario="%s loop, block distance %s" % ("ascending" if up else "descending", hazard[1].show()),
+                                     detail="the loop runs %s and stores block `%s` which a later iteration reads as a source through `%s`: whenever that distance is "
+                                            "positive the source has already been overwritten (an in-place move must run away from its sources)" % (
+                                                "upwards" if up else "downwards", T.show(), d.text(hazard[0])[:30]))
+                        flows[id(n)] = "up"
+                        continue
                 # terms of the stored value
                 terms = []
 
